@@ -77,3 +77,42 @@ func Harness_parse_file_equals_stream() {
 		}
 	}
 }
+
+// Harness_parse_reentrant: a parse started from inside the callback of another parse (a consumer
+// that loads a second file while it walks the first) does not disturb the outer one: the outer
+// parse delivers what it delivers alone. Anything the parser keeps in package-level state (a
+// shared line buffer, a cached record) would show here.
+func Harness_parse_reentrant() {
+	outer := "d0:\n  a: 1\n  b: 2\nd1:\n  c: 3\n# note\nd2:\n  e: 5\n"
+	inners := []string{"x0:\n  p: 7\n  q: 8\nx1:\n  r: 9\n", "", "x:\n  " + strings.Repeat("z", 300) + ": 1\n"}
+	inner := inners[verifChoose("inner", len(inners))]
+	at := verifChoose("at-record", 3)
+	alone := &hRec{}
+	ParseStreamCallback(strings.NewReader(outer), NewDefaultConfig(), alone.cb)
+	nested := &hRec{}
+	innerRec := &hRec{}
+	n := 0
+	err := ParseStreamCallback(strings.NewReader(outer), NewDefaultConfig(), func(node *shared.ParserNode, perr error) (bool, error) {
+		if n == at {
+			ParseStreamCallback(strings.NewReader(inner), NewDefaultConfig(), innerRec.cb)
+		}
+		n++
+		return nested.cb(node, perr)
+	})
+	verifCover("parsed")
+	verifAssert("no-error-reported", err == nil && len(nested.errs) == 0)
+	verifAssert("record-count", len(nested.nodes) == len(alone.nodes))
+	if len(nested.nodes) == len(alone.nodes) {
+		for i := range alone.nodes {
+			a, b := alone.nodes[i], nested.nodes[i]
+			verifAssert("record-header", a.Header == b.Header)
+			verifAssert("entry-count", len(a.Elements) == len(b.Elements))
+			if len(a.Elements) == len(b.Elements) {
+				for j := range a.Elements {
+					verifAssert("entry-name", a.Elements[j].Name == b.Elements[j].Name)
+					verifAssert("entry-value", a.Elements[j].Value == b.Elements[j].Value)
+				}
+			}
+		}
+	}
+}
